@@ -288,4 +288,18 @@ PROPS = {
         "trusted_base": ["projection end points are compared through the proved algebraic-number comparison"],
         "assumptions": [],
     },
+    "C05": {
+        "level": "proof",
+        "lean_targets": ["LP.Props.C05"],
+        "harnesses": [{"name": "h_factor", "quick": 600, "thorough": 15000}],
+        "select": lambda t: t[1] == "fac",
+        "nontrivial": lambda t, r: True,
+        "rule": "Z[x]: products of 1-5 irreducible blocks (linear incl. non-monic, quadratic, cubic, quartic incl. x^4+1 and "
+                "x^4-10x^2+1 which split modulo every prime) with multiplicities 1-3 and a content, 20% with five small linear / "
+                "quadratic factors (recombination after lifting); Z_p[x] for p = 2, 5, 13: products of random polynomials with "
+                "multiplicities incl. multiples of p; multivariate: products of small polynomials in 1-3 variables with multiplicities and "
+                "integer content; square-free, full and content-free factorization. Every line is non-trivial.",
+        "trusted_base": ["the irreducibility of the Z[x] building blocks is re-certified by the model on every line (irreducible modulo a prime not dividing the leading coefficient, or Kronecker's method); trial division over F_p"],
+        "assumptions": ["degree <= 10 over Z, <= 9 over Z_2 / Z_5, <= 6 over Z_13; multivariate discriminants of Sylvester order <= 7"],
+    },
 }
